@@ -33,6 +33,7 @@ func c12(c *Ctx) {
 	c12R8(c)
 	c12R9(c)
 	noSendUnderConsensusLock(c, "R10")
+	setRoundRule(c, "R11")
 }
 
 func isResChSend(ins ssa.Instruction) bool {
